@@ -234,9 +234,9 @@ Definition w_disconnect : list event :=
     first blocks the connection, the rest waits and is processed, in order, once it is unblocked *)
 Definition w_behind : list (frame * option Z) :=
   [(cmd [bs "BLPOP"; bs "q"; bs "0.3"], Some 300); (cmd [bs "BLPOP"; bs "r"; bs "0"], Some 0); (cmd [bs "PING"], None)].
-(** orphan-wakeup-no-renotify (open): the client whose wake-up is under way goes away; the wake-up
-    puts the element back and tells nobody: the next client keeps waiting beside a list that is
-    not empty *)
+(** orphan-wakeup-no-renotify (fixed 0715a3b): the client whose wake-up is under way goes away; the
+    wake-up puts the element back and notifies the next client waiting on the key, which the
+    following wake-up phase serves *)
 Definition w_orphan : list event :=
   [EConnect 1; EConnect 2; EConnect 3; at0 1 [bs "BLPOP"; bs "q"; bs "0"] (Some 0); at0 2 [bs "BLPOP"; bs "q"; bs "0"] (Some 0);
    at0 3 [bs "LPUSH"; bs "q"; bs "v"] None; EDisconnect 1; EHangups; EWakeups 0].
@@ -298,16 +298,6 @@ Definition wcount (db : Z) (k : bytes) (W : list wakeup) : Z :=
 Definition no_strand (st : sys) : Prop :=
   forall db k, 0 <= db -> reg_get (b_reg (snd st)) (db, k) <> [] ->
   len (list_at (fst st) db k) <= wcount db k (b_wake (snd st)).
-(** histories of the list catalogue in which no client goes away while it is blocked (a client
-    that goes away with its wake-up under way leaves the element to nobody: class
-    orphan-wakeup-no-renotify) *)
-Definition ok_sk (st : sys) (e : event) : bool :=
-  ok_cons st e && match e with EDisconnect c => negb (is_blocked (snd st) c) | _ => true end.
-Inductive reach_sk : sys -> Prop :=
-| rsk_init : reach_sk (init_server None, init_blocking)
-| rsk_step : forall st e, reach_sk st -> ok_sk st e = true -> reach_sk (step st e).
-Fixpoint all_ok_sk (st : sys) (evs : list event) : bool :=
-  match evs with [] => true | e :: r => ok_sk st e && all_ok_sk (step st e) r end.
 (** two single-key waiters, a push of two elements observed BEFORE the wake-ups run, then after *)
 Definition w_sk : list event :=
   [EConnect 1; EConnect 2; EConnect 3; at0 1 [bs "BLPOP"; bs "q"; bs "0"] (Some 0);
